@@ -420,6 +420,38 @@ def h_mut_pos(op, n, m):
             if not r.ok:
                 return K.check(r.raised(IndexError) and _unchanged(K, s, x, pos), 'failed del must leave pos', exc=r.excname)
             exp_pos = 0
+        elif op == 'setitem':
+            # s[i] = bitstring of any length replaces the single bit i (a length change like any other)
+            i = K.int('i')
+
+            def f():
+                s[i] = other
+            r = call(f)
+            if not r.ok:
+                return K.check(r.raised(IndexError) and _unchanged(K, s, x, pos), 'failed item assignment must leave content and pos', exc=r.excname)
+            exp_pos = pos if len(s) == n else 0
+        elif op == 'setslice-step':
+            a, b = K.opt_int('start', -n - 1, n + 1), K.opt_int('stop', -n - 1, n + 1)
+            st = K.choice('step', [-1, 2, -2])
+
+            def f():
+                s[a:b:st] = other
+            r = call(f)
+            if not r.ok:
+                return K.check(_unchanged(K, s, x, pos), 'failed extended-slice assignment must leave content and pos', exc=r.excname)
+            exp_pos = pos if len(s) == n else 0
+        elif op == 'imul':
+            k = K.int('k', 0, 3)
+
+            def f():
+                nonlocal s
+                s *= k
+            r = call(f)
+            if not r.ok:
+                return K.fail('*= raised', exc=r.excname)
+            if len(s) == n:
+                return _valid_pos(K, s, n)
+            return _valid_pos(K, s, n)
         elif op == 'setslice':
             a, b = K.opt_int('start', -n - 1, n + 1), K.opt_int('stop', -n - 1, n + 1)
 
@@ -616,7 +648,7 @@ def conditions(tier):
         for n in ([0, 4] if q else [0, 1, 4, 9]):
             add(f'C06.new-objects[{c},n={n}]', h_new_objects(c, n), f'all {n}-bit contents x all positions; copy, slice, operators, cut, split', D_NEW, n=n, cls=c)
             add(f'C06.pos-irrelevant[{c},n={n}]', h_pos_irrelevant(c, n), f'all {n}-bit contents x all pairs of positions; 17 non-stream operations', D_NEW, n=n, cls=c)
-    for op in ['append', 'iadd', 'prepend', 'clear', 'insert', 'overwrite', 'delslice', 'delitem', 'setslice', 'replace']:
+    for op in ['append', 'iadd', 'prepend', 'clear', 'insert', 'overwrite', 'delslice', 'delitem', 'setslice', 'replace', 'setitem', 'setslice-step', 'imul']:
         for (n, m) in ([(0, 2), (5, 2), (5, 0)] if q else [(0, 2), (5, 2), (5, 0), (8, 3), (1, 1)]):
             add(f'C06.pos-after-{op}[BitStream,n={n},m={m}]', h_mut_pos(op, n, m), f'all contents ({n}+{m} bits) x all positions x every int argument', D_MUT, n=n, m=m)
     for op in ['append', 'overwrite']:
